@@ -194,7 +194,23 @@ def body_roundtrip(case, ctx):
         ctx.label("layout=row")
 
     # object level
-    P = projective.Point(a.copy(), chart_index=i)
+    # the chart as a Python int, or as the NumPy integer that affine_coords() itself hands
+    # back when it picks the chart, keyword or positional
+    ci = [i, np.int64(i), np.int32(i), np.intp(i)][(i + n + len(shape)) % 4]
+    if not isinstance(ci, int):
+        ctx.label("chart-index-as-numpy-integer")
+    P = projective.Point(a.copy(), chart_index=ci) if (n + len(shape)) % 2 else \
+        projective.Point(a.copy(), ci)
+    # a collection of points (the class the drawing code uses for point clouds) from the same
+    # affine data: the same homogeneous coordinates
+    if len(shape) >= 1:
+        PCk = projective.PointCollection(a.copy(), chart_index=ci)
+        PCp = projective.PointCollection(a.copy(), ci)
+        h_ = np.insert(a, i, 1.0, axis=-1)
+        ctx.check(np.array_equal(np.asarray(PCk.proj_data), h_) and
+                  np.array_equal(np.asarray(PCp.proj_data), h_),
+                  "PointCollection(a, chart) data, chart given by keyword or by position",
+                  got=np.asarray(PCp.proj_data))
     ctx.check(P.shape == shape, "Point shape", got=P.shape, want=shape)
     ctx.check(np.array_equal(P.proj_data, h), "Point(a, chart_index=i) data", got=P.proj_data)
     ctx.close("Point(a, chart).affine_coords(chart)", P.affine_coords(chart_index=i), a, **rt)
